@@ -1,10 +1,10 @@
 SPECIFICATION Spec
 CONSTANTS
- MaxLen = 4
+ MaxLen = 5
  NegLen = 2
- PSplit = 3
- MaxLenHigh = 3
+ PSplit = 4
+ MaxLenHigh = 4
  Exps <- ExpsFull
- Precs = {1, 2, 3, 4, 5, 6}
+ Precs = {4, 5, 6}
 INVARIANT Lemmas
 CHECK_DEADLOCK FALSE
